@@ -1,0 +1,56 @@
+//go:build verif
+// +build verif
+
+// Contracts for deductive verification (govc, /verif). Comment-only file.
+
+package meta
+
+//@ func Meta.GetIrreversibleBlockHeight
+//@   property C17
+//@   ensures reads_confirmed_meta: result == t.Meta.IrreversibleBlockHeight
+//@ func Meta.GetIrreversibleSlideWindow
+//@   property C17
+//@   ensures reads_confirmed_meta: result == t.Meta.IrreversibleSlideWindow
+
+// The next irreversible height goes into the batch (under the key
+// LoadIrreversibleBlockHeight reads after a restart: table prefix "M" + key) and
+// into the pending in-memory meta, both with the same value.
+//
+//@ func Meta.UpdateIrreversibleBlockHeight
+//@   property C17
+//@   ensures tmp_updated: result == nil ==> t.MetaTmp.IrreversibleBlockHeight == nextIrreversibleBlockHeight
+//@   ensures batch_has_value: result == nil ==> pbUtxoMetaIrr(sel(sel(batchVal, ifacePtr(batch)), xldgpb.MetaTablePrefix + ledger.IrreversibleBlockHeightKey)) == nextIrreversibleBlockHeight
+//@   ensures batch_op_is_put: result == nil ==> sel(sel(batchOp, ifacePtr(batch)), xldgpb.MetaTablePrefix + ledger.IrreversibleBlockHeightKey) == 1
+//@   ensures failure_keeps_tmp: result != nil ==> t.MetaTmp.IrreversibleBlockHeight == old(t.MetaTmp.IrreversibleBlockHeight)
+//@   ensures no_write: kvWrites == old(kvWrites) && kvDirect == old(kvDirect)
+
+// Ghost history: irrUpdFor[b] = h records that UpdateNextIrreversibleBlockHeight
+// succeeded for block height h with batch b (used by the callers' call-site
+// assertions: the update dominates the pointer update, same batch).
+//@ ghost var irrUpdFor (Array Int Int)
+
+// Property C17: with window w > 0 the next irreversible height is max(cur, h - w);
+// w == 0 leaves it unchanged; w < 0 or cur < 0 is an error.
+//
+//@ func Meta.UpdateNextIrreversibleBlockHeight
+//@   property C17
+//@   let h = blockHeight
+//@   let cur = curIrreversibleBlockHeight
+//@   let w = curIrreversibleSlideWindow
+//@   sets irrUpdFor = result == nil ? upd(old(irrUpdFor), ifacePtr(batch), blockHeight) : old(irrUpdFor)
+//@   ensures negative_window_rejected: w < 0 ==> result != nil
+//@   ensures negative_height_rejected: w > 0 && cur < 0 ==> result != nil
+//@   ensures zero_window_unchanged: w == 0 ==> result == nil && t.MetaTmp.IrreversibleBlockHeight == old(t.MetaTmp.IrreversibleBlockHeight)
+//@   ensures advance_is_max: result == nil && w > 0 && h - w > cur ==> t.MetaTmp.IrreversibleBlockHeight == h - w && pbUtxoMetaIrr(sel(sel(batchVal, ifacePtr(batch)), xldgpb.MetaTablePrefix + ledger.IrreversibleBlockHeightKey)) == h - w
+//@   ensures never_lowered: w > 0 && cur >= 0 && h - w <= cur ==> result == nil && t.MetaTmp.IrreversibleBlockHeight == old(t.MetaTmp.IrreversibleBlockHeight) && sel(batchOp, ifacePtr(batch)) == sel(old(batchOp), ifacePtr(batch))
+//@   ensures failure_keeps_tmp: result != nil ==> t.MetaTmp.IrreversibleBlockHeight == old(t.MetaTmp.IrreversibleBlockHeight)
+//@   ensures no_write: kvWrites == old(kvWrites) && kvDirect == old(kvDirect)
+
+//@ func Meta.UpdateNextIrreversibleBlockHeightForPrune
+//@   property C17
+//@   let h = blockHeight
+//@   let w = curIrreversibleSlideWindow
+//@   ensures negative_window_rejected: w < 0 ==> result != nil
+//@   ensures zero_window_unchanged: w == 0 ==> result == nil && t.MetaTmp.IrreversibleBlockHeight == old(t.MetaTmp.IrreversibleBlockHeight)
+//@   ensures prune_floor_zero: result == nil && w > 0 ==> t.MetaTmp.IrreversibleBlockHeight == max(0, h - w)
+//@   ensures failure_keeps_tmp: result != nil ==> t.MetaTmp.IrreversibleBlockHeight == old(t.MetaTmp.IrreversibleBlockHeight)
